@@ -134,22 +134,25 @@ fn history_dev(h: &[FlatEv], start_mode: HandleControl, oracle: Oracle) -> Resul
                             }
                         }
                         Oracle::Output => {
-                            // expectation uses the decoder's own (real) modifier record, so a
-                            // modifier-tracking defect (C04) does not alarm here
+                            // "the current modifier state" is the one the history of modifier
+                            // events defines (C04's model): a press made while the hidden
+                            // Pause-Ctrl is *held* must yield PauseBreak even if the decoder
+                            // forgot the flag.
                             for (name, out, lid) in [("Keyboard", &ok, 0u8), ("EventDecoder", &oe, ed_layout)] {
-                                let want: Option<DecodedKey> = match mm::expect_output(pre_real, *k, *s) {
+                                let want: Option<DecodedKey> = match mm::expect_output(pre_model, *k, *s) {
                                     Expect::Nothing => None,
                                     Expect::Raw(r) => Some(DecodedKey::RawKey(r)),
-                                    Expect::ViaLayout => Some(DecodedKey::Unicode(encode_args(lid, *k, post_real, mode))),
+                                    Expect::ViaLayout => Some(DecodedKey::Unicode(encode_args(lid, *k, model, mode))),
                                 };
                                 if *out != want {
                                     return Some((
                                         i,
-                                        format!("out:{}:state={}:mode={}:layout#{}:event={}({:?}):want={}:got={}", name, mods_str(pre_real), mode_name(mode), lid, state_name(*s), k, describe_out(&want).replace(' ', ""), describe_out(out).replace(' ', "")),
-                                        format!("{}: in modifier state {} (mode {}, layout #{}), the event {} {:?} returns {}; required: {}", name, mods_str(pre_real), mode_name(mode), lid, state_name(*s), k, describe_out(out), describe_out(&want)),
+                                        format!("out:{}:state={}:mode={}:layout#{}:event={}({:?}):want={}:got={}", name, mods_str(pre_model), mode_name(mode), lid, state_name(*s), k, describe_out(&want).replace(' ', ""), describe_out(out).replace(' ', "")),
+                                        format!("{}: in modifier state {} (mode {}, layout #{}), the event {} {:?} returns {}; required: {}", name, mods_str(pre_model), mode_name(mode), lid, state_name(*s), k, describe_out(out), describe_out(&want)),
                                     ));
                                 }
                             }
+                            let _ = (pre_real, post_real);
                         }
                     }
                 }
@@ -316,8 +319,8 @@ pub fn c04(run: &mut Run) {
 }
 
 pub fn c14(run: &mut Run) {
-    run.rule = "Exhaustive: (a) 1024 decoder states (512 modifier records x 2 modes, reached by witness histories) x 124 keys x 3 key states, on Keyboard and on a bare EventDecoder, with an argument-encoding layout whose returned character names the layout object, key, modifier record and mode it was consulted with. Oracle: Up/SingleShot -> None; press of the nine modifier/lock keys -> RawKey(self), NumpadLock with the hidden Pause-Ctrl held -> RawKey(PauseBreak); any other press -> exactly encode(current layout, key, the decoder's current modifier record, current mode). (b) all sequences of <= 3 configuration changes from {set_ctrl_handling(Map), (Ignore), change_layout(#1), (#2)} between two presses, in 8 modifier states x 3 keys. (c) random histories mixing events and configuration changes. Non-trivial = press in a non-initial modifier state or after a configuration change.".into();
-    run.assumptions = vec!["the expectation uses the decoder's own modifier record (get_modifiers of a Keyboard run on the same history), so a modifier-tracking defect is C04's business and does not alarm here".into()];
+    run.rule = "Exhaustive: (a) 1024 decoder states (512 modifier records x 2 modes, reached by witness histories) x 124 keys x 3 key states, on Keyboard and on a bare EventDecoder, with an argument-encoding layout whose returned character names the layout object, key, modifier record and mode it was consulted with. Oracle: Up/SingleShot -> None; press of the nine modifier/lock keys -> RawKey(self), NumpadLock with the hidden Pause-Ctrl held -> RawKey(PauseBreak); any other press -> exactly encode(current layout, key, the modifier record defined by the event history, current mode). (b) all sequences of <= 3 configuration changes from {set_ctrl_handling(Map), (Ignore), change_layout(#1), (#2)} between two presses, in 8 modifier states x 3 keys. (c) random histories mixing events and configuration changes. Non-trivial = press in a non-initial modifier state or after a configuration change.".into();
+    run.assumptions = vec!["'the current modifier state' is the state defined by the history of modifier events (the C04 reference model); a modifier-tracking defect therefore also shows here whenever it changes what a later press yields".into()];
     exhaustive_transitions(run, Oracle::Output);
 
     // (b) orderings of configuration changes between two presses
